@@ -2,6 +2,7 @@
 import warnings
 import numpy as np
 import FlowCal.io
+from harness import loadform
 
 
 def limbs_le(v, nbytes):
@@ -45,7 +46,7 @@ def load(path, want_fcsdata=True):
     with warnings.catch_warnings(record=True) as w:
         warnings.simplefilter('always')
         try:
-            f = FlowCal.io.FCSFile(path)
+            f = FlowCal.io.FCSFile(loadform.arg(path))
         except Exception as e:   # noqa
             o = {'k': 'refused', 'exc': type(e).__name__}
             if want_fcsdata:
